@@ -71,18 +71,24 @@ class Gen:
             return float_words(S["w"], rng)
         if k == "str":
             lens = [0, 1, 2, 5]
+            cw = S["cw"]
+            if depth <= 1:
+                # character counts and byte counts on both sides of the 127/128 and 255/256 class edges
+                lens += sorted(set([127 // cw, 127 // cw + 1, 255 // cw, 255 // cw + 1, 127, 128, 255, 256]))
             if self.big and depth == 0:
-                lens += [126 // S["cw"], 127 // S["cw"] + 1, 255 // S["cw"], 256 // S["cw"] + 1, 300, 65535 // S["cw"],
-                         65536 // S["cw"] + 1]
-            return [str_value(S["cw"], n, rng) for n in lens]
+                lens += [300, 65535 // cw, 65536 // cw + 1]
+            return [str_value(cw, n, rng) for n in lens]
         if k in ("vec",):
             ev = self.values(S["e"], depth + 1)
             lens = [0, 1, 3]
-            if self.big and depth == 0 and S["e"]["k"] in ("int", "char", "bool"):
+            if S["e"]["k"] in ("int", "char", "bool"):
                 esz = S["e"].get("w", 1)
-                lens += [127 // esz, 128 // esz + 1, 255 // esz, 256 // esz + 1, 65536 // esz + 1]
+                if depth <= 1:
+                    lens += sorted(set([127 // esz, 127 // esz + 1, 255 // esz, 255 // esz + 1, 127, 128]))
+                if self.big and depth == 0:
+                    lens += [255, 256, 65536 // esz + 1]
             elif self.big and depth == 0:
-                lens += [127, 128, 130]
+                lens += [127, 128, 130, 255, 256]
             out = []
             for i, n in enumerate(lens):
                 out.append({"n": [ev[(i + j) % len(ev)] for j in range(n)]})
@@ -128,7 +134,7 @@ class Gen:
             return [{"o": []}] + [{"o": [v]} for v in ev[:5]]
         if k == "res":
             ev = self.values(S["e"], depth + 1)
-            errs = [v for v in self.ints(S["err"]["w"], S["err"]["s"]) if any(v)][:3]
+            errs = [v for v in self.ints(S["err"]["w"], S["err"]["s"]) if any(v)]
             return [{"r": "none"}] + [{"r": "err", "e": e} for e in errs] + [{"r": "val", "v": v} for v in ev[:4]]
         if k == "emptyvar":
             return [{"ev": True}]
@@ -145,6 +151,16 @@ class Gen:
             evs = [self.values(e["e"], depth + 1) if e["act"] else [None] for e in ents]
             out = []
             patterns = [[True] * len(ents), [False] * len(ents)] + [[(i + j) % 2 == 0 for j in range(len(ents))] for i in range(2)]
+            # every entry value is used at least once (all entries present), then the presence patterns
+            kmax = min(16, max([len(x) for x in evs] + [1]))
+            for i in range(kmax):
+                t = []
+                for j, e in enumerate(ents):
+                    if e["act"]:
+                        t.append({"id": e["id"], "p": True, "v": evs[j][(i + (j if i % 2 else 0)) % len(evs[j])]})
+                    else:
+                        t.append({"id": e["id"], "p": False})
+                out.append({"t": t})
             for pi, pat in enumerate(patterns):
                 t = []
                 for j, e in enumerate(ents):
